@@ -350,3 +350,119 @@ def detuple(trees):
     for tree in trees:
         rewrite(tree, {})
     return stats
+
+
+# ---------------------------------------------------------------------------------------------------------------
+# container protocol: `for x in self` in a class whose __iter__ hands out the elements of one of its attributes
+
+ITER_CONSUMERS = ('enumerate', 'sorted', 'list', 'tuple', 'zip', 'iter', 'sum', 'min', 'max', 'any', 'all', 'reversed',
+                  'set', 'frozenset', 'map', 'filter', 'pairwise', 'chain')
+
+
+def _iter_source(fn):
+    """the expression E (over self) whose elements __iter__ hands out, in order; None when it is not that simple"""
+    body = list(fn.body)
+    if body and isinstance(body[0], ast.Expr) and isinstance(body[0].value, ast.Constant) and isinstance(body[0].value.value, str):
+        body = body[1:]
+    if len(body) != 1:
+        return None
+    st = body[0]
+    e = None
+    if isinstance(st, ast.Return) and isinstance(st.value, ast.Call):
+        c = st.value
+        if isinstance(c.func, ast.Name) and c.func.id == 'iter' and len(c.args) == 1 and not c.keywords:
+            e = c.args[0]
+        elif isinstance(c.func, ast.Attribute) and c.func.attr == '__iter__' and not c.args:
+            e = c.func.value
+    elif isinstance(st, ast.Expr) and isinstance(st.value, ast.YieldFrom):
+        e = st.value.value
+    elif isinstance(st, ast.For) and not st.orelse and isinstance(st.target, ast.Name) and len(st.body) == 1 and \
+            isinstance(st.body[0], ast.Expr) and isinstance(st.body[0].value, ast.Yield) and \
+            isinstance(st.body[0].value.value, ast.Name) and st.body[0].value.value.id == st.target.id:
+        e = st.iter
+    if e is None:
+        return None
+    names = {n.id for n in ast.walk(e) if isinstance(n, ast.Name) and not isinstance(n.ctx, ast.Store)}
+    lam = {a.arg for n in ast.walk(e) if isinstance(n, ast.Lambda) for a in n.args.args}
+    if not names - lam <= {'self', 'sorted', 'reversed', 'list', 'tuple'}:
+        return None
+    if any(isinstance(n, ast.Name) and n.id == 'self' and not isinstance(_parent_in(e, n), ast.Attribute) for n in ast.walk(e)):
+        return None        # iterates self again
+    return e
+
+
+def _parent_in(root, node):
+    for x in ast.walk(root):
+        for ch in ast.iter_child_nodes(x):
+            if ch is node:
+                return x
+    return None
+
+
+def _copy(n):
+    if not isinstance(n, ast.AST):
+        return n
+    new = n.__class__()
+    for fld, val in ast.iter_fields(n):
+        setattr(new, fld, [_copy(x) for x in val] if isinstance(val, list) else _copy(val))
+    for a in ('lineno', 'col_offset', 'end_lineno', 'end_col_offset'):
+        if hasattr(n, a):
+            setattr(new, a, getattr(n, a))
+    return new
+
+
+def decontainer(trees):
+    """inside the methods of a class whose __iter__ hands out the elements of E(self), iterating `self` is iterating
+    E(self): `for x in self`, comprehensions over self and self handed to enumerate / sorted / zip / ... are written
+    with E(self); `len(self)` likewise when __len__ returns len(E'(self)).  Returns the number of rewrites."""
+    classes = {}
+    for tree in trees:
+        for st in tree.body:
+            if isinstance(st, ast.ClassDef):
+                classes[st.name] = st
+    n_rw = [0]
+    for cname, cd in classes.items():
+        meths = {x.name: x for x in cd.body if isinstance(x, ast.FunctionDef)}
+        src = _iter_source(meths['__iter__']) if '__iter__' in meths else None
+        lensrc = None
+        if '__len__' in meths:
+            b = [x for x in meths['__len__'].body if not (isinstance(x, ast.Expr) and isinstance(x.value, ast.Constant))]
+            if len(b) == 1 and isinstance(b[0], ast.Return) and isinstance(b[0].value, ast.Call) and \
+               isinstance(b[0].value.func, ast.Name) and b[0].value.func.id == 'len' and len(b[0].value.args) == 1 and \
+               isinstance(b[0].value.args[0], ast.Attribute):
+                lensrc = b[0].value.args[0]
+        if src is None and lensrc is None:
+            continue
+
+        def is_self(x, sn):
+            return isinstance(x, ast.Name) and x.id == sn and isinstance(x.ctx, ast.Load)
+
+        def put(like, e, sn):
+            v = _copy(e)
+            for y in ast.walk(v):
+                if isinstance(y, ast.Name) and y.id == 'self':
+                    y.id = sn
+                ast.copy_location(y, like)
+            n_rw[0] += 1
+            return v
+        for name, fn in meths.items():
+            if name in ('__iter__', '__len__') or not fn.args.args or \
+               any(isinstance(d, ast.Name) and d.id == 'staticmethod' for d in fn.decorator_list):
+                continue
+            sn = fn.args.args[0].arg
+            if any(isinstance(x, ast.Name) and x.id == sn and isinstance(x.ctx, ast.Store) for x in ast.walk(fn)):
+                continue
+            for x in ast.walk(fn):
+                if src is not None:
+                    if isinstance(x, (ast.For, ast.comprehension)) and is_self(x.iter, sn):
+                        x.iter = put(x.iter, src, sn)
+                    elif isinstance(x, ast.Call) and isinstance(x.func, ast.Name) and x.func.id in ITER_CONSUMERS:
+                        for i_, a in enumerate(x.args):
+                            if is_self(a, sn):
+                                x.args[i_] = put(a, src, sn)
+                    elif isinstance(x, ast.YieldFrom) and is_self(x.value, sn):
+                        x.value = put(x.value, src, sn)
+                if lensrc is not None and isinstance(x, ast.Call) and isinstance(x.func, ast.Name) and x.func.id == 'len' and \
+                   len(x.args) == 1 and is_self(x.args[0], sn):
+                    x.args[0] = put(x.args[0], lensrc, sn)
+    return n_rw[0]
